@@ -3,7 +3,7 @@ CONSTANTS
   MaxPL = 3
   MaxN = 3
   NegLo = 2
-  LenHi = 5
+  LenHi = 4
   MaxFiles = 3
   BASE = 3
   MAXI = 7
